@@ -181,6 +181,12 @@ def run(rep):
             validator_levels.append((T, bs, st_, gs, succ))
     rep.floor('crate-internal/validator calls dominated by a successful parse', n_gen, 10)
     # ---- 3/4: validation -----------------------------------------------------------------------------------------------------------------
+    accessors0 = set()
+    for n2, b2 in mir.bodies.items():
+        if b2.kind != 'Closure' and n2 not in chain_fns and not (n2.startswith('<') and ' as ' in n2) and reads_field(b2, 'WriteOptions', 'validate'):
+            callers = {cn for cn, cb in mir.bodies.items() for _, t in cb.calls() if cname(t) == n2}
+            if callers and callers <= chain_fns and local_is_field_value(mir, b2, 0, 'WriteOptions', 'validate'):
+                accessors0.add(n2)
     rep.check(len(validator_levels) == 1, 'C17.3.validator-call', 'validate-once', '', f'Validator::validate is called in {len(validator_levels)} functions of the generating chain', ok_detail='one function validates')
     gates = []
     for lv in levels:
@@ -221,7 +227,7 @@ def run(rep):
         vrb = result_branch(T, vt)
         dom = T.dominators()
         cl = closures_passed(T)
-        gen = [(b, t) for b, t in T.calls() if cname(t) in mir.bodies and cname(t) not in cl and t is not st_]
+        gen = [(b, t) for b, t in T.calls() if cname(t) in mir.bodies and cname(t) not in cl and t is not st_ and cname(t) not in accessors0]
         if vrb is None:
             rep.bad('C17.3.validate-branch', f'validate-branch:{tn}', T.where(vb), 'no branch on the outcome of Validator::validate', undecided=True)
         else:
@@ -259,19 +265,25 @@ def run(rep):
                   ok_detail='the validator result only feeds the error branch and is dropped')
     # readers of the option: only chain functions (and derived impls); the value feeds only the gate / the validator's capabilities
     readers = []
+    accessors = set()
     for n2, b2 in sorted(mir.bodies.items()):
         if n2.startswith('<') and ' as ' in n2:
             continue
         if reads_field(b2, 'WriteOptions', 'validate') and n2 not in chain_fns:
+            # an accessor helper: returns the option's value itself (its Some/None-ness is that of `validate`) and is called from the chain only
+            callers = {cn for cn, cb in mir.bodies.items() for _, t in cb.calls() if cname(t) == n2}
+            if b2.kind != 'Closure' and callers and callers <= chain_fns and local_is_field_value(mir, b2, 0, 'WriteOptions', 'validate'):
+                accessors.add(n2)
+                continue
             readers.append(n2)
     rep.check(not readers, 'C17.4.validate-gate-only', 'validate-readers', '',
               f'WriteOptions.validate is also read in {readers}, outside the generating chain: only the gate may depend on it', ok_detail='only the generating chain reads WriteOptions.validate')
     for lv in levels:
         T = lv[0]
-        rd = reads_field(T, 'WriteOptions', 'validate')
+        rd = reads_field(T, 'WriteOptions', 'validate') or any(cname(t) in accessors for _, t in T.calls())
         if not rd:
             continue
-        starts = set()
+        starts = {t['dest']['l'] for _, t in T.calls() if cname(t) in accessors}
         for b, blk in enumerate(T.blocks):
             for s in blk['stmts']:
                 if any(place_reads_field(p, 'WriteOptions', 'validate') for p in T.rvalue_places(s['rv'])):
